@@ -228,7 +228,10 @@ def fault_oracle(case, obs, diag):
         for u in sp.get("ups", []):
             downs[u].append(d)
     arrivals = {i: [] for i in range(N)}
+    arr_ev = {i: [] for i in range(N)}       # event index of each arrival
     edges = {}
+    edge_ev = {}
+    failed_events = set()
     tainted = set()          # nodes that were callers on the stack of some failure (their own processing was cut short)
     failed_refs = {}         # rc id -> event index
     prev_booms = 0
@@ -249,7 +252,11 @@ def fault_oracle(case, obs, diag):
             port = nodes[dst].get("ups", []).index(src) if src in nodes[dst].get("ups", []) else -1
             if not is_fail:
                 arrivals[dst].append((port, x, tuple(mids)))
+                arr_ev[dst].append(ei)
             edges.setdefault((src, dst), []).append((x, tuple(mids)))
+            edge_ev.setdefault((src, dst), []).append(ei)
+        if o["raised"]:
+            failed_events.add(ei)
         if fail_entry is not None:
             for (src, dst) in stack[:-1]:
                 tainted.add(dst)
@@ -291,6 +298,44 @@ def fault_oracle(case, obs, diag):
             if got != exp:
                 findings.append(("C16", "C16/state-after-failure/%s" % sp["k"],
                                  "node %d (%s) sent %r to %d; as if failing elements had not been offered: %r" % (u, sp["k"], got[:10], d, exp[:10])))
+                break
+    # (b') callers: a node that was on the stack when something BELOW it failed had already taken the element in; later
+    #      elements are processed as if the failing element had not been offered to the FAILING node only, so the
+    #      caller's own state includes it.  Per event: what the node sent on each edge is its list-level output for the
+    #      arrivals of that event (for an event that failed: a prefix of it, the exception cut the rest short).
+    for u, sp in enumerate(nodes):
+        if u not in tainted or not sp.get("ups") or sp["k"] in ("sink", "zip_latest", "collect"):
+            continue
+        try:
+            outs_upto = [ref_outputs(sp, arrivals[u][:j], len(sp.get("ups", [])))[0] for j in range(len(arrivals[u]) + 1)]
+        except Exception:
+            continue
+        if any(outs_upto[j + 1][:len(outs_upto[j])] != outs_upto[j] for j in range(len(arrivals[u]))):
+            continue                      # (not a prefix-extending meaning: no attribution)
+        per_ev = {}
+        for j, a in enumerate(arrivals[u]):
+            if a is Flush:
+                continue
+            per_ev.setdefault(arr_ev[u][j - sum(1 for b in arrivals[u][:j] if b is Flush)], []).extend(
+                e[0] for e in outs_upto[j + 1][len(outs_upto[j]):])
+        bad = False
+        for d in downs[u]:
+            if nodes[d]["k"] == "slice" and nodes[d]["end"] is not None:
+                continue
+            got_ev = {}
+            for (g, e_i) in zip(edges.get((u, d), []), edge_ev.get((u, d), [])):
+                got_ev.setdefault(e_i, []).append(g[0])
+            for e_i in sorted(set(per_ev) | set(got_ev)):
+                exp = per_ev.get(e_i, [])
+                got = got_ev.get(e_i, [])
+                ok = (got == exp[:len(got)]) if e_i in failed_events else (got == exp)
+                if not ok:
+                    findings.append(("C16", "C16/caller-state-after-failure/%s" % sp["k"],
+                                     "node %d (%s) was above a failure earlier; in event %d it sent %r to %d, with the failing element counted in it sends %r"
+                                     % (u, sp["k"], e_i, got[:10], d, exp[:10])))
+                    bad = True
+                    break
+            if bad:
                 break
     return findings
 
